@@ -1416,8 +1416,8 @@ VARIANTS = [
       '        self._enqueue_lock.notify()\n      return self._queue.get_nowait()\n',
       'R-C04-7'),
     B('enqueue-skips-every-other', _F,
-      '        self.put(next(iterator))',
-      '        next(iterator)\n        self.put(next(iterator))', 'R-C04-8'),
+      '        value = next(iterator)\n        fetched = True',
+      '        next(iterator)\n        value = next(iterator)\n        fetched = True', 'R-C04-8'),
     B('states-lock-holds-during-wait', _F,
       '          if self._enqueue_lock.wait(timeout=self.timeout):\n            continue',
       '          with self._states_lock:\n            if self._enqueue_lock.wait(timeout=self.timeout):\n              continue',
